@@ -101,7 +101,8 @@ def run_tie(run, tier, seed, streams, prims):
     from . import c19
     quick = tier == "quick"
     jobs, lcs, seen = [], [], set()
-    for name, sj, _ in streams:
+    shapes = shape_jobs()
+    for name, sj, _ in list(streams) + [("shapes", shapes, "")]:
         for j in sj:
             lc = leaf_case(c19, j, prims)
             if lc is None:
@@ -124,7 +125,7 @@ def run_tie(run, tier, seed, streams, prims):
                         j = dict(gen="series", unit=u, conns=[["name", a], ["name", b]], nser=n)
                         jobs.append(j)
                         lcs.append((0, [tuple(p) for p in u["ports"]], a, b, n))
-    outs = core.run_worker_sharded("c19", jobs)
+    outs = core.run_worker_sharded("c19e", jobs)
     cases, idx, early = [], [], []
     for k, (j, o, lc) in enumerate(zip(jobs, outs, lcs)):
         wide = lc[4] >= 2 and dict(lc[1])[lc[2]] > 1
@@ -176,4 +177,118 @@ def run_tie(run, tier, seed, streams, prims):
                            count=sum(1 for x in code.values() if x == c),
                            theorem="Props/C19E.v:C19E_exported_topology; Corr/C19E.v:chk_c19e"), found_input=False)
     run.coverage["pipeline_tie"] = dict(cases=n, equal=sum(1 for k in range(n) if code.get(k, 0) == 0))
+    run.coverage["traces_validated_against_impl"] = run.coverage.get("traces_validated_against_impl", 0) + n
+    run_shapes(run, tier, seed, shapes, prims)
+
+
+# ------------------------------------------------------------------------------------------ more unit shapes (stream `unit-shapes`)
+def shape_jobs():
+    """Unit cells the C19 streams do not have:
+    A. NAMESAKES: two different units with one (qualified) name and different port lists, stacked one after the other in ONE
+       process with the same conns and nser (`after` = the earlier call; generator results are cached per process);
+    B. a bundle-valued port `b` with member `x` NEXT TO a scalar port `b_x`: the flattened member is called `b_x_`;
+    C. port names with a leading underscore and the names an Instance treats specially as attributes (`of`, `conns`,
+       `connect`) - those the library accepts as port names of a Module (`name` is refused by Module itself)."""
+    from .c19 import ext, mod
+    jobs = []
+    S = lambda u, a, b, n, **kw: dict(gen="series", unit=u, conns=[["name", a], ["name", b]], nser=n, **kw)
+    # A
+    pairs = [(mod("Unit", [["a", 1, "inout"], ["b", 1, "inout"], ["ctrl", 2, "in"]]),
+              mod("Unit", [["a", 1, "inout"], ["b", 1, "inout"], ["ctrl", 4, "in"]])),
+             (mod("Unit2", [["a", 1, "inout"], ["b", 1, "inout"]]),
+              mod("Unit2", [["a", 1, "inout"], ["b", 1, "inout"], ["en", 1, "in"]], [["bb", [["p", 1]]]])),
+             (ext("Enk", [["a", 1], ["b", 1], ["c", 1]]), ext("Enk", [["a", 1], ["b", 1], ["c", 3]])),
+             (ext("Enk2", [["a", 1], ["b", 1]]), ext("Enk2", [["a", 1], ["b", 1], ["k", 1]]))]
+    for u1, u2 in pairs:
+        for n in (1, 2, 3):
+            jobs.append(S(u2, "a", "b", n, after=[S(u1, "a", "b", n)]))
+            jobs.append(S(u1, "a", "b", n, after=[S(u2, "a", "b", n)]))
+    for u1, u2 in ((ext("Emk", [["d", 1], ["g", 1], ["s", 1]]), ext("Emk", [["d", 1], ["g", 2], ["s", 1], ["b", 1]])),):
+        for n in (1, 3):
+            jobs.append(dict(gen="mosstack", unit=u2, nser=n, after=[dict(gen="mosstack", unit=u1, nser=n)]))
+    # B
+    ubx = mod("Ubx", [["a", 1, "inout"], ["c", 1, "inout"], ["b_x", 1, "inout"]], [["b", [["x", 1], ["y", 1]]]])
+    ubx2 = mod("Ubx2", [["b_x", 1, "in"], ["b_x_", 1, "out"], ["s", 2, "inout"]], [["b", [["x", 1]]]])
+    for u, a, b in ((ubx, "a", "c"), (ubx, "b_x", "a"), (ubx2, "b_x", "b_x_")):
+        jobs.append(dict(gen="wrapper", unit=u))
+        jobs.append(dict(gen="wrapper", unit=u, pre=True))
+        for n in (1, 2, 3):
+            jobs.append(S(u, a, b, n))
+    # C
+    for nm in ("_sub", "_in", "of", "conns", "connect", "__x"):
+        e = ext("Ec" + nm.strip("_"), [["p", 1], ["n", 1], [nm, 1]])
+        jobs.append(dict(gen="wrapper", unit=e))
+        for n in (1, 2, 4):
+            jobs.append(S(e, "p", "n", n))             # the special name in parallel
+            jobs.append(S(e, nm, "p", n))              # ... and in the series pair
+        jobs.append(dict(gen="series", unit=e, conns=[["port", "n"], ["port", nm]], nser=3))
+    um = mod("Uc", [["a", 1, "inout"], ["b", 1, "inout"], ["_bias", 3, "in"], ["of", 1, "in"]])
+    jobs.append(dict(gen="wrapper", unit=um))
+    for n in (1, 3):
+        jobs.append(S(um, "a", "b", n))
+        jobs.append(S(um, "of", "a", n))
+    jobs.append(dict(gen="mosstack", unit=ext("Emu", [["d", 1], ["g", 1], ["s", 1], ["_b", 1]]), nser=3))
+    return jobs
+
+
+def effective_unit(u):
+    """The unit as Coq is told about it: bundle members under the names flattening gives them (<bundle>_<member>, with
+    underscores appended while the name is taken - the rule C10 is about), so that Spec/C19Topology.v:unit_io lists the
+    leaf-level ports the exported unit has."""
+    if u is None or u["kind"] != "mod" or not u["buns"]:
+        return u
+    taken = {s[0] for s in u["sigs"]} | {b[0] for b in u["buns"]}
+    buns = []
+    for bn, members in u["buns"]:
+        ms = []
+        for m, w in members:
+            name = f"{bn}_{m}"
+            while name in taken:
+                name += "_"
+            taken.add(name)
+            ms.append([name[len(bn) + 1:], w])
+        buns.append([bn, ms])
+    return dict(u, buns=buns)
+
+
+def run_shapes(run, tier, seed, jobs, prims):
+    from . import c19
+    outs = core.run_worker_sharded("c19e", jobs)
+    cases = []
+    for j, o in zip(jobs, outs):
+        jc = {k: v for k, v in j.items() if k != "after"}
+        jc["unit"] = effective_unit(jc["unit"])
+        cases.append(c19.c_case(jc, o, prims))
+    bad = core.coq_eval_cases("C19", "unit_shapes", c19.IMPORTS, "c19_case", cases, "run_cases chk_c19", chunk=40)
+    n = len(jobs)
+    run.stream("unit-shapes", n, len({c19.job_key(j) for j in jobs if c19.nontrivial(j)}),
+               rejected_by_impl=sum(1 for o in outs if o["pkg"] is None),
+               with_history=sum(1 for j in jobs if j.get("after")),
+               renamed_flattened_members=sum(1 for j in jobs if effective_unit(j["unit"]) != j["unit"]),
+               rule="non-trivial = nser >= 2 or Wrapper; namesake units (same qualified name, different ports) stacked one after the "
+                    "other in one process; a bundle member whose flattened name is taken by another port; port names with a leading "
+                    "underscore / special attribute names of Instance; judged by Corr/C19.v:chk_c19 like every C19 stream")
+    order = sorted(bad, key=lambda ic: c19.job_size(jobs[ic[0]]))
+    any1 = any(c == 1 for _, c in order)
+    shown = set()
+    for i, c in order:
+        j, o = jobs[i], outs[i]
+        grp = (c, j["gen"], json.dumps(j["unit"], sort_keys=True))
+        if grp in shown or len(shown) >= 4:
+            continue
+        shown.add(grp)
+        if c == 1:
+            what = (f"valid call rejected at stage {o['stage']}: {o['err']['cls']}: {o['err']['msg']}" if o["pkg"] is None else
+                    "exported module is not the documented topology for the unit it was given (ports / unit instances / net partition)")
+        elif c == 2:
+            what = "model and implementation differ (property holds)"
+        else:
+            what = "generated unit cell is not well-formed (harness defect)"
+        hist = f" after {len(j['after'])} earlier call(s) in the same process" if j.get("after") else ""
+        run.violation(f"C19E:shape:{c}:" + c19.job_key(j), f"{c19.describe(j)}{hist}: {what}",
+                      dict(kind="impl-violates-spec" if c == 1 else "correspondence-broken", stream="unit-shapes", case=j, impl=o,
+                           count=sum(1 for _, x in bad if x == c),
+                           reproducer="echo '{\"jobs\": [<case>]}' | PYTHONPATH=<repo>:harness/impl /venv/bin/python harness/impl/c19e.py "
+                                      "(runs the `after` calls first, in the same process); compare with the chain statement"),
+                      found_input=(c == 1) or any1)
     run.coverage["traces_validated_against_impl"] = run.coverage.get("traces_validated_against_impl", 0) + n
